@@ -65,6 +65,7 @@ def lean_ty(t):
     if t == STRATEGY: return "Rs.Strategy"
     if t == FALLIB: return "Rs.Fallibility"
     if isinstance(t, tuple) and t[0] == "tuple": return "(" + " × ".join(lean_ty(x) for x in t[1]) + ")"
+    if t == "selfstruct": raise Untranslatable("the receiver struct is not a value")
     raise Untranslatable(f"no Lean type for {t}")
 
 
@@ -80,6 +81,8 @@ def rust_ty(text):
     if t == "Self": return BUMP
     m = re.fullmatch(r"Option<(.*)>", t)
     if m: return opt(rust_ty(m.group(1)))
+    m = re.fullmatch(r"\((.+),(.+)\)", t)
+    if m and t.count(",") == 1: return ("tuple", [rust_ty(m.group(1)), rust_ty(m.group(2))])
     m = re.fullmatch(r"Result<(.*),(AllocErr|AllocError)>", t)
     if m: return res(rust_ty(m.group(1)))
     m = re.fullmatch(r"Result<(.*),CollectionAllocErr>", t)
@@ -94,7 +97,7 @@ def rust_ty(text):
 # mode: 'pure' (no arena state) | 'read' (reads s, returns Outcome) | 'st' (threads s)
 class Fn:
     def __init__(self, name, kind, mode, file="src/lib.rs", anchor=None, nth=0, group="Arith", lean=None, self_ty=None,
-                 region=None, free=None):
+                 region=None, free=None, self_fields=None):
         self.name, self.kind, self.mode, self.file, self.anchor, self.nth, self.group = name, kind, mode, file, anchor, nth, group
         self.lean = lean or name
         self.self_ty = self_ty
@@ -102,6 +105,9 @@ class Fn:
         # region: translate only a part of the body ("err_arm": the statements of the `Err(e) => { … }` arm of the function's
         # `match`, without its final expression); `free` declares the locals of the enclosing function the region reads
         self.region, self.free = region, free or []
+        # `&mut self` methods of small state structs (an iterator's position): the listed fields are in/out parameters
+        # of the translated function, which returns (value, final field values)
+        self.self_fields = self_fields or []
 
 
 FUNCS = [
@@ -123,6 +129,9 @@ FUNCS = [
     Fn("try_alloc_layout_fast", "bump", "st", group="Fast"),
     Fn("reset", "bump", "st", group="Reset"),
     Fn("new_chunk", "assocst", "st", group="NewChunk"),
+    Fn("as_raw_parts", "chunk", "read", group="Iter", anchor="impl ChunkFooter"),
+    Fn("next", "iter", "read", group="Iter", anchor="for ChunkRawIter", lean="chunk_raw_iter_next",
+       self_fields=[("footer", "NonNull<ChunkFooter>")]),
     Fn("is_last_allocation", "bump", "read", group="Realloc"),
     Fn("try_alloc_layout", "bump", "st", group="Realloc"),
     Fn("dealloc", "bump", "st", group="Realloc", anchor="unsafe fn is_last_allocation"),
@@ -176,6 +185,7 @@ class Env:
         return Env(self.d, self.used, self.scope)
 
     def fresh(self, name):
+        name = name.replace("self.", "self_")
         base = name + "_" if name in RESERVED else name
         n, i = base, 0
         while n in self.used:
@@ -231,7 +241,7 @@ class Tr:
             self.sv, self.sty, self.bindS, self.pureS = "s", "St", "bindO", "pureO"
         if fn.kind == "rawvec":
             self.lead, self.lead_names = ["(c : V.Cfg)"], ["c"]
-        elif fn.kind in ("bump", "chunk", "assocst"):
+        elif fn.kind in ("bump", "chunk", "assocst", "iter"):
             self.lead, self.lead_names = ["(E M : Nat)"], ["E", "M"]
         elif fn.kind == "assoc":
             self.lead, self.lead_names = ["(M : Nat)"], ["M"]
@@ -242,6 +252,8 @@ class Tr:
     def ret_lean_ty(self):
         t = self.ret
         inner = lean_ty(t[1]) if isinstance(t, tuple) and t[0] == "res" else lean_ty(t)
+        if self.fn.self_fields and not self.ret_override:
+            inner = "(" + " × ".join([inner] + [lean_ty(rust_ty(ft)) for _, ft in self.fn.self_fields]) + ")"
         return f"{self.sty} × Outcome {inner}" if self.st else f"Outcome {inner}"
 
     def wrap(self, outcome):
@@ -266,6 +278,9 @@ class Tr:
             return f"(match {term} with | some v_ => {self.wrap('Outcome.ok v_')} | none => {self.wrap('Outcome.err')})"
         if ty == "never":
             return term
+        if self.fn.self_fields and not self.in_closure:
+            finals = [env.d["self." + f][0] for f, _ in self.fn.self_fields]
+            return self.wrap(f"Outcome.ok ({term}, {', '.join(finals)})")
         if isinstance(self.ret, tuple) and self.ret[0] == "res2":
             if isinstance(ty, tuple) and ty[0] == "res2":
                 return self.wrap(f"Outcome.ok {paren(term)}")
@@ -361,6 +376,8 @@ class Tr:
             if len(segs) == 1 and segs[0] in env.d:
                 return env.d[segs[0]]
             if segs == ["self"]:
+                if self.fn.kind == "iter":
+                    return "self", "selfstruct"
                 if self.fn.kind == "rawvec":
                     return "v", RAWVEC
                 return "self", BUMP if self.fn.kind != "chunk" else CHUNK
@@ -448,6 +465,9 @@ class Tr:
                 return None
             if ty == "static" and f == "0": return t, CHUNK
             if ty == RAWVEC and f == "cap": return f"{paren(t)}.cap", NAT
+            if ty == "selfstruct" and ("self." + f) in env.d: return env.d["self." + f]
+            if isinstance(ty, tuple) and ty[0] == "tuple" and f in ("0", "1"):
+                return f"{paren(t)}.{int(f) + 1}", ty[1][int(f)]
             return None
         if k == "mcall":
             p = self.pure(e[1], env)
@@ -570,6 +590,10 @@ class Tr:
             return f"(match {t} with | {lp} => {g[0]} | _ => false)", BOOL
         if k == "tuple" and not e[1]:
             return "()", UNIT
+        if k == "tuple" and len(e[1]) == 2:
+            ps = [self.pure(x, env) for x in e[1]]
+            if any(x is None for x in ps): return None
+            return f"({ps[0][0]}, {ps[1][0]})", ("tuple", [ps[0][1], ps[1][1]])
         return None
 
     def pattern(self, pat, ty, env):
@@ -888,7 +912,7 @@ class Tr:
         lead = []
         if g.kind == "rawvec":
             lead = ["c"]
-        elif g.kind in ("bump", "chunk", "assocst"):
+        elif g.kind in ("bump", "chunk", "assocst", "iter"):
             lead = ["E", "M"]
         elif g.kind == "assoc":
             lead = ["M"]
@@ -1054,6 +1078,9 @@ class Tr:
                 if ty == NAT and name == "add" and len(pa) == 1:
                     a = pa[0][0]
                     return self.check(f"{t} + {a} < USIZE", "pointer add wraps", k(f"({t} + {a})", NAT, env2))
+                if ty == NAT and name == "offset_from" and len(pa) == 1 and pa[0][1] == NAT:
+                    a = pa[0][0]
+                    return self.check(f"{a} ≤ {t}", "offset_from of a lower pointer (the result is cast to usize)", k(f"({t} - {a})", NAT, env2))
                 if ty == NAT and name == "sub" and len(pa) == 1:
                     a = pa[0][0]
                     return self.check(f"{a} ≤ {t}", "pointer sub wraps", k(f"({t} - {a})", NAT, env2))
@@ -1107,6 +1134,14 @@ class Tr:
                         return f"let {ln} := {t};\n{go(i + 1, e3)}"
                     if pat[0] == "pwild":
                         return go(i + 1, e2)
+                    if pat[0] == "ptuple" and isinstance(ty, tuple) and ty[0] == "tuple" and len(pat[1]) == len(ty[1]) \
+                            and all(q[0] in ("pid", "pwild") for q in pat[1]):
+                        lines, e3 = [], e2
+                        for j, q in enumerate(pat[1]):
+                            if q[0] == "pid":
+                                e3, ln = e3.bind(q[1], ty[1][j])
+                                lines.append(f"let {ln} := {paren(t)}.{j + 1};")
+                        return "\n".join(lines) + "\n" + go(i + 1, e3)
                     if pat[0] == "pstruct" and ty == DETAILS:
                         m = {"new_size_without_footer": "nswf", "size": "size", "align": "align"}
                         lines, e3 = [], e2
@@ -1120,6 +1155,15 @@ class Tr:
                 return self.E(init, env_, K(kl))
             if st[0] == "assign":
                 op, lhs, rhs = st[1], st[2], st[3]
+                if lhs[0] == "field" and lhs[1] == ("path", ["self"]) and ("self." + lhs[2]) in env_.d and op == "=":
+                    key = "self." + lhs[2]
+
+                    def kself(t, ty, e2):
+                        e3, ln = e2.bind(key, ty)
+                        if ty == CHUNK:
+                            self.chunk_ver[ln] = self.version
+                        return f"let {ln} := {t};\n{go(i + 1, e3)}"
+                    return self.E(rhs, env_, K(kself))
                 if lhs[0] == "field" and lhs[2] == "allocated_bytes" and op == "=":
                     def kc(tc, tyc, e2):
                         if tyc != CHUNK:
@@ -1157,6 +1201,12 @@ class Tr:
     def function(self):
         env = Env()
         params = list(self.lead)
+        for f_, ft in self.fn.self_fields:
+            ty = rust_ty(ft)
+            env, ln = env.bind("self." + f_, ty)
+            if ty == CHUNK:
+                self.chunk_ver[ln] = self.version
+            params.append(f"({ln} : {lean_ty(ty)})")
         for n, t in self.sig["params"]:
             if n == "self":
                 if self.fn.kind == "chunk":
@@ -1318,7 +1368,7 @@ def translate_all(repo):
 
 
 GROUP_IMPORTS = {"Arith": [], "Details": ["Arith"], "Limit": ["Arith"], "Footer": ["Arith"], "Fast": ["Arith", "Footer"],
-                 "Realloc": ["Arith", "Fast", "Footer", "Limit"], "RawVec": [], "Reset": ["Arith", "Footer"], "Rewind": ["Arith", "Footer", "Limit", "Fast", "Realloc"], "NewChunk": ["Arith"], "Slow": ["Arith", "Details", "Limit", "Footer", "Fast", "NewChunk"]}
+                 "Realloc": ["Arith", "Fast", "Footer", "Limit"], "RawVec": [], "Reset": ["Arith", "Footer"], "Rewind": ["Arith", "Footer", "Limit", "Fast", "Realloc"], "NewChunk": ["Arith"], "Iter": ["Arith", "Footer"], "Slow": ["Arith", "Details", "Limit", "Footer", "Fast", "NewChunk"]}
 GROUP_PRELUDE = {"RawVec": "BumpVerif.Model.RsVec"}
 
 
